@@ -11,6 +11,7 @@
 import Aqv.Base.Proto
 import Aqv.Model.State
 import Aqv.Model.StateRoot
+import Aqv.Model.StateCache
 import Aqv.Base.Keccak
 open Aqv Aqv.Proto Aqv.State
 
@@ -42,8 +43,8 @@ def showInternal (s : SDB) : String :=
   "D" ++ joinWith "." ((s.dirty.foldl (fun acc x => insertSorted x acc) []).map toString) ++ ";F" ++
     String.join (tracked.map (fun a =>
       match s.objs a with
-      | none => "a-"
-      | some o => (if o.armed then "a" else "u") ++ (if o.deleted then "x" else "-"))) ++
+      | none => "a-n"
+      | some o => (if o.armed then "a" else "u") ++ (if o.deleted then "x" else "-") ++ "p")) ++
     ";J" ++ toString s.journal.length ++ "." ++ toString s.revs.length
 
 def showState (s : SDB) : String := showAccts s ++ ";" ++ showAux s ++ ";" ++ showInternal s
@@ -109,11 +110,14 @@ inductive Res
   | panic
 
 /-- execute one action; `none` = malformed action text. -/
-def act (d : DState) (a : String) : Option Res :=
+def act (d : DState) (a : String) (dump : Bool) : Option Res :=
   let f := a.splitOn ":"
   let s := d.cur
+  -- the harness reads every getter of the tracked accounts before it prints an observation: `getStateObject` caches the
+  -- objects it loads (Aqv.Model.StateCache); in cold-cache histories nothing is read between checkpoints
+  let wm (x : SDB) : SDB := if dump then warm x tracked else x
   let fin (s' : SDB) (ret : String) : Option Res :=
-    if s'.fault then some .panic else some (.ok { d with cur := s' } (ret ++ "/" ++ showState s'))
+    if s'.fault then some .panic else some (.ok { d with cur := wm s' } (ret ++ "/" ++ showState (wm s')))
   match f with
   | ["ca", x] => do let x ← parseNat x; fin (createAccount s x) ""
   | ["ab", x, v] => do let x ← parseNat x; let v ← parseInt v; fin (addBalance s x v) ""
@@ -138,42 +142,42 @@ def act (d : DState) (a : String) : Option Res :=
     let s' := finalise (b == "1") s
     if s'.fault then some .panic else
     let (d', c) := rootObs d s'.trie
-    some (.ok { d' with cur := s' } (c ++ "/" ++ showState s'))
+    some (.ok { d' with cur := wm s' } (c ++ "/" ++ showState (wm s')))
   | ["cm", b] =>
     let s' := commit (b == "1") s
     if s'.fault then some .panic else
     let (d', c) := rootObs d s'.trie
-    some (.ok { d' with cur := s', committed := d'.committed.push s'.trie } (c ++ "/" ++ showState s'))
+    some (.ok { d' with cur := wm s', committed := d'.committed.push s'.trie } (c ++ "/" ++ showState (wm s')))
   | ["ro", k] => do
     let k ← parseNat k
     match d.committed[k]? with
     | none => some .panic
-    | some c => let s' := fresh c; some (.ok { d with cur := s' } ("ok/" ++ showState s'))
+    | some c => let s' := wm (fresh c); some (.ok { d with cur := s' } ("ok/" ++ showState s'))
   | ["rs", k] => do
     let k ← parseNat k
     match d.committed[k]? with
     | none => some .panic
-    | some c => let s' := reset s c; if s'.fault then some .panic else some (.ok { d with cur := s' } ("ok/" ++ showState s'))
+    | some c => let s' := wm (reset s c); if s'.fault then some .panic else some (.ok { d with cur := s' } ("ok/" ++ showState s'))
   | ["cp"] =>
     let c := copy s
     if c.fault then some .panic else
-    some (.ok { d with alts := pushAlt d.alts c } ("ok/" ++ showState s ++ "/" ++ showState c))
+    some (.ok { d with cur := wm s, alts := pushAlt d.alts (wm c) } ("ok/" ++ showState (wm s) ++ "/" ++ showState (wm c)))
   | ["on", k] => do
     let k ← parseNat k
     match d.committed[k]? with
     | none => some .panic
-    | some c => let n := fresh c; some (.ok { d with alts := pushAlt d.alts n } ("ok/" ++ showState s ++ "/" ++ showState n))
+    | some c => let n := wm (fresh c); some (.ok { d with cur := wm s, alts := pushAlt d.alts n } ("ok/" ++ showState (wm s) ++ "/" ++ showState n))
   | ["q"] => some (.ok { d with quiet := true } ("ok/" ++ showState s))
-  | ["dm"] => some (.ok d ("ok/" ++ showState s))
+  | ["dm"] => some (.ok { d with cur := wm s } ("ok/" ++ showState (wm s)))
   | ["sw"] =>
     match d.alts with
-    | [] => some (.ok d ("ok/" ++ showState s))
-    | o :: rest => some (.ok { d with cur := o, alts := rest ++ [s] } ("ok/" ++ showState o))
+    | [] => some (.ok { d with cur := wm s } ("ok/" ++ showState (wm s)))
+    | o :: rest => some (.ok { d with cur := wm o, alts := rest ++ [s] } ("ok/" ++ showState (wm o)))
   | ["ne"] =>
     let n := netEffect s
     if n.fault then some .panic else
     let (d', c) := rootObs d n.trie
-    some (.ok d' (c ++ "/" ++ showState s))
+    some (.ok { d' with cur := wm s } (c ++ "/" ++ showState (wm s)))
   | _ => none
 
 def isCheckpoint (a : String) : Bool :=
@@ -189,11 +193,12 @@ def retOf (ob : String) : String := (ob.splitOn "/").headD ""
 def runActs : List String → DState → List String → List String
   | [], _, acc => acc.reverse
   | a :: rest, d, acc =>
-    match act d a with
+    let dump := !((d.quiet || a == "q") && !isCheckpoint a)
+    match act d a dump with
     | none => ("bad-op" :: acc).reverse
     | some .panic => ("panic" :: acc).reverse
     | some (.ok d' o) =>
-      let o' := if d'.quiet && !isCheckpoint a then retOf o ++ "/~" else o
+      let o' := if !dump then retOf o ++ "/~" else o
       runActs rest d' (o' :: acc)
 
 /-! ### judging the Go output on its own (only used when it differs from the model) -/
